@@ -383,10 +383,153 @@ def rule_result_length_gate(ck, facts):
     ck.floor(R, "bridge_length_tests", n, 1)
 
 
+
+BINCODE_ENC = ("serialize", "serialize_into", "serialized_size")
+BINCODE_DEC = ("deserialize", "deserialize_from", "deserialize_seed", "deserialize_from_custom", "deserialize_in_place")
+# option methods of bincode's `Options` that change which byte strings an encoder writes / a decoder accepts
+BINCODE_OPTS = {
+    "with_limit": ("limit", "bounded"), "with_no_limit": ("limit", "none"),
+    "with_fixint_encoding": ("int", "fixint"), "with_varint_encoding": ("int", "varint"),
+    "with_big_endian": ("endian", "big"), "with_little_endian": ("endian", "little"), "with_native_endian": ("endian", "native"),
+    "allow_trailing_bytes": ("trailing", "allow"), "reject_trailing_bytes": ("trailing", "reject"),
+}
+
+
+def rule_codec_symmetry(ck, facts):
+    """every encoder and every decoder of the bridge runs bincode under the same configuration"""
+    R = "C20.codec"
+    ck.rule(R, "the functions of the language crate that call bincode to encode and those that call it to decode use the same wire configuration (integer encoding, byte order, size limit): the free functions `bincode::serialize/deserialize` are the legacy configuration (fixed-width integers, little endian, no limit); an option chain is followed through the workspace helpers that build it. A limit or another integer encoding on one side only refuses, or misreads, what the other side wrote")
+    lang = facts.crate(roles.LANG)
+
+    def last(t):
+        return (callee(t) or "").split("::")[-1].split("<")[0]
+
+    def is_bincode(t):
+        c = callee(t) or ""
+        d = (t[4].get("def") or "") if isinstance(t[4], dict) else ""
+        return "bincode" in c or "bincode" in d
+
+    def opts_of(f, depth=0, seen=None):
+        """option settings applied in f, its closures and the workspace helpers it calls (<= 2 calls deep)"""
+        seen = seen if seen is not None else set()
+        out = {}
+        chain = False
+        for g in facts.family(roles.LANG, f.root):
+            for _, t in g.calls():
+                n = last(t)
+                if is_bincode(t) and n in BINCODE_OPTS:
+                    k, v = BINCODE_OPTS[n]
+                    out[k] = v
+                    chain = True
+                elif is_bincode(t) and n in ("new", "options", "config") and "Options" in (callee(t) or "") + str(t[4].get("full") or ""):
+                    chain = True
+                elif is_bincode(t) and n in ("options",):
+                    chain = True
+                else:
+                    h = facts.fn(callee(t) or "")
+                    if h is not None and depth < 2 and h.path not in seen and h.crate == roles.LANG and "bincode" in " ".join(str(x) for x in h.d["locals"][:1]):
+                        seen.add(h.path)
+                        o2, c2 = opts_of(h, depth + 1, seen)
+                        out.update(o2)
+                        chain = chain or c2
+        return out, chain
+
+    sides = {"encode": [], "decode": []}
+    for f in lang.fns:
+        if f.kind == "promoted" or "::test" in f.path or "::tests::" in f.path:
+            continue
+        for _, t in f.calls():
+            if not is_bincode(t):
+                continue
+            n = last(t)
+            side = "encode" if n in BINCODE_ENC else "decode" if n in BINCODE_DEC else None
+            if side is None:
+                continue
+            free = "::config::" not in (callee(t) or "") and "Options" not in (callee(t) or "") and (t[4].get("def") or "").count("::") <= 1
+            if free:
+                cfg = {"int": "fixint", "endian": "little", "limit": "none"}
+            else:
+                o, _ = opts_of(f)
+                cfg = {"int": "varint", "endian": "little", "limit": "none"}  # DefaultOptions::new()
+                cfg.update({k: v for k, v in o.items() if k != "trailing"})
+            sides[side].append((f, t, cfg, free))
+    ck.floor(R, "encoder_sites", len(sides["encode"]), 2)
+    ck.floor(R, "decoder_sites", len(sides["decode"]), 3)
+    ref = None
+    for f, t, cfg, free in sides["encode"]:
+        ref = ref or cfg
+    if ref is None:
+        return
+    for side in ("encode", "decode"):
+        for f, t, cfg, free in sides[side]:
+            owner = f.root.split("::", 1)[1] if "::" in f.root else f.root
+            key = "config|%s|%s" % (side, owner)
+            diff = {k: (cfg.get(k), ref.get(k)) for k in ("int", "endian", "limit") if cfg.get(k) != ref.get(k)}
+            if not diff:
+                ck.ok(R, key, {"site": owner, "config": cfg, "free_function": free})
+            else:
+                ck.bad(R, key, "%s runs bincode with %s while the encoders of the bridge use %s: %s" % (
+                    owner, ", ".join("%s=%s" % (k, v[0]) for k, v in sorted(diff.items())), ", ".join("%s=%s" % (k, v[1]) for k, v in sorted(diff.items())),
+                    "a size limit on one side refuses every value whose encoding is longer although the other side produced it correctly (a long array, a long string)" if "limit" in diff else "the two sides do not agree on how integers / lengths are written"), f.where(t))
+
+
+def rule_derived_complete(ck, facts):
+    """derived serde impls of the types that cross the boundary write and read every field"""
+    import re as _re
+
+    R = "C20.type-serde"
+    lang = facts.crate(roles.LANG)
+    n = 0
+    for f in lang.fns:
+        m = _re.search(r"<impl .*Serialize for ([\w:]+)(<.*>)?>::serialize$", f.path)
+        if not m or f.kind != "assoc" or "::_::<impl" not in f.path:
+            continue
+        tyname = m.group(1)
+        adt = [(p, a) for p, a in lang.adts.items() if p.endswith("::" + tyname) or p == tyname]
+        if len(adt) != 1:
+            continue
+        ap, a = adt[0]
+        label = ap.split("::", 1)[1] if "::" in ap else ap
+        calls = [(last_seg(callee(t)), t) for _, t in f.calls()]
+        if a.get("kind") == "struct" or (len(a["variants"]) == 1 and any(c == "serialize_struct" for c, _ in calls)):
+            nf = len(a["variants"][0]["f"])
+            written = sum(1 for c, _ in calls if c == "serialize_field")
+            if not any(c == "serialize_struct" for c, _ in calls):
+                continue  # newtype / transparent forms: one payload, nothing to skip
+            n += 1
+            key = "derived-fields|%s" % label
+            if written == nf:
+                ck.ok(R, key, {"fields": nf})
+            else:
+                ck.bad(R, key, "the derived serializer of %s writes %d of its %d fields (a field marked `skip`): the decoder fills the missing field with its default, so the type that arrives is not equal to the one that was sent and no error is reported" % (label, written, nf), f.where())
+        elif len(a["variants"]) > 1:
+            idx = set()
+            for c, t in calls:
+                if c in ("serialize_unit_variant", "serialize_newtype_variant", "serialize_tuple_variant", "serialize_struct_variant") and len(t[5]) >= 3:
+                    i = const_int(t[5][2])
+                    if i is not None:
+                        idx.add(i)
+            if not idx:
+                continue
+            n += 1
+            key = "derived-variants|%s" % label
+            if len(idx) == len(a["variants"]):
+                ck.ok(R, key, {"variants": len(idx)})
+            else:
+                ck.bad(R, key, "the derived serializer of %s has arms for %d of its %d variants (a variant marked `skip`): such a value is refused or decoded as another variant" % (label, len(idx), len(a["variants"])), f.where())
+    ck.floor(R, "derived_serializers_checked", n, 12)
+
+
+def last_seg(c):
+    return (c or "").split("::")[-1].split("<")[0]
+
+
 def run(ck, facts, tier):
     rule_value_roundtrip(ck, facts)
     rule_container_shape(ck, facts)
     rule_result_length_gate(ck, facts)
+    rule_codec_symmetry(ck, facts)
+    rule_derived_complete(ck, facts)
     rule_type_serde(ck, facts)
     rule_type_serde(ck, facts, R="C20.value-serde", ENUM=VALUE, self_suffix="interpreter::Value", module_mark="interpreter::serde_impl", label="Value", floor=9)
     ck.not_decided("byte-level behaviour of bincode (NaN payload bits, -0.0), and self-describing formats where `rename_all = lowercase` identifiers would not match the capitalised names")
